@@ -243,4 +243,18 @@ def CachesCorrectListE (g : Grammar) : List (Option Ty) → List LVal → Prop
   | tys, v :: vs => CachesCorrectE g tys.head?.join v ∧ CachesCorrectListE g tys.tail vs
 end
 
+mutual
+/-- all subtrees in pre-order, each with the declared type of its position (the positions `CachesCorrectE` uses) -/
+def LVal.declSubtrees (g : Grammar) (decl : Option Ty) : LVal → List (Option Ty × LVal)
+  | .node o c d e args =>
+      (decl, .node o c d e args) :: LVal.declSubtreesList g ((g.cls c).fields.map fun f => some f.2) args
+  | .list o d e vs =>
+      (decl, .list o d e vs) :: LVal.declSubtreesList g (List.replicate vs.length (decl.bind Ty.elem)) vs
+  | .tuple vs => (decl, .tuple vs) :: LVal.declSubtreesList g (((decl.map Ty.comps).getD []).map some) vs
+  | v => [(decl, v)]
+def LVal.declSubtreesList (g : Grammar) : List (Option Ty) → List LVal → List (Option Ty × LVal)
+  | _, [] => []
+  | tys, v :: vs => LVal.declSubtrees g tys.head?.join v ++ LVal.declSubtreesList g tys.tail vs
+end
+
 end GEVerif
